@@ -76,6 +76,76 @@ func genC11(r *Rng, e *Emitter, n int) {
 		ring = append(ring, ring[0], ring[1])
 		emitLocate(e, 2, geom.Coord{float64(r.Intn(4)), float64(r.Intn(4))}, ring)
 	}
+	// long rings (hundreds to thousands of vertices) with long runs of vertices level with one
+	// another: densified boxes and staircases; query points on vertices, on edges between them, and
+	// one unit inside / outside, in every layout
+	for i := 0; i < n/400+8; i++ {
+		size := []int{130, 257, 511, 512, 513, 600, 1024, 1025, 2048, 2100}[r.Intn(10)]
+		stride := 2 + r.Intn(3)
+		per := size / 4
+		W, H := 3*per, 2*per
+		var xs, ys []int
+		if r.chance(1, 2) { // box, every edge densified
+			for k := 0; k < per; k++ {
+				xs, ys = append(xs, 3*k), append(ys, 0)
+			}
+			for k := 0; k < per; k++ {
+				xs, ys = append(xs, W), append(ys, 2*k)
+			}
+			for k := 0; k < per; k++ {
+				xs, ys = append(xs, W-3*k), append(ys, H)
+			}
+			for k := 0; k < per; k++ {
+				xs, ys = append(xs, 0), append(ys, H-2*k)
+			}
+		} else { // staircase up to the right, then back along the axes
+			x, y := 0, 0
+			for k := 0; k < size-2; k++ {
+				xs, ys = append(xs, x), append(ys, y)
+				if k%40 < 30 {
+					x += 2
+				} else {
+					y += 3
+				}
+			}
+			xs, ys = append(xs, x), append(ys, 0)
+			W, H = x, y
+		}
+		rot := r.Intn(len(xs))
+		rev := r.chance(1, 2)
+		ring := make([]float64, 0, (len(xs)+1)*stride)
+		for k := 0; k <= len(xs); k++ {
+			j := (rot + k) % len(xs)
+			if rev {
+				j = (rot + len(xs) - k) % len(xs)
+			}
+			ring = append(ring, float64(xs[j]), float64(ys[j]))
+			for o := 2; o < stride; o++ {
+				ring = append(ring, r.anyBits())
+			}
+		}
+		for q := 0; q < 12; q++ {
+			j := r.Intn(len(xs))
+			px, py := xs[j], ys[j]
+			switch r.Intn(5) {
+			case 1: // between this vertex and the next
+				j2 := (j + 1) % len(xs)
+				px, py = (xs[j]+xs[j2])/2, (ys[j]+ys[j2])/2
+			case 2:
+				px, py = px+1, py+1
+			case 3:
+				px, py = px-1, py-1
+			case 4:
+				px, py = r.Intn(W+3)-1, r.Intn(H+3)-1
+			}
+			p := geom.Coord{float64(px), float64(py)}
+			for o := 2; o < stride; o++ {
+				p = append(p, r.anyBits())
+			}
+			e.tally(fmt.Sprintf("long-ring-%d", size))
+			emitLocate(e, stride, p, ring)
+		}
+	}
 	// a point as close as an integer point can be to a long sloping edge without being on it: the
 	// edge's end points, translated to the point, form a unimodular pair (determinant +-1) with a
 	// long Euclidean descent
